@@ -964,6 +964,20 @@ int bufr_save_template( const char *filename, BUFR_Template *tmplt )
             {
             if (j > 0)
                fprintf( fp, "," );
+            if ((code->values[j] != NULL)&&(code->values[j]->type == VALTYPE_STRING))
+               {
+/*
+ * a string can be longer than errmsg
+ */
+               int         len;
+               const char *str = bufr_value_get_string( code->values[j], &len );
+
+               if (str)
+                  fprintf( fp, "\"%.*s\"", len, str );
+               else
+                  fprintf( fp, "MSNG" );
+               continue;
+               }
             errmsg[0] = '\0';
             if (bufr_print_tmplt_value( errmsg, code->values[j] ))
                {
